@@ -487,6 +487,10 @@ func runC01(c *Check) {
 	c.Assump = []string{"V8 (Node 20) executes input and output; Function.prototype.toString and stack text are never observed", "inputs are fully parenthesised by the generator so their meaning is unambiguous"}
 	pool := NewNodePool("")
 	defer pool.Close()
+	if os.Getenv("VERIF_C01_ONLY") == "jsx" { // debugging aid
+		c01JSX(c, pool)
+		return
+	}
 	x := &xrunner{c: c, cfgs: c01Cfgs, pool: pool, calls: xCallsStd}
 	all := xAllOps
 	ctxs := usableCtxs()
